@@ -13,9 +13,16 @@ def gen_model_replay(m, rng, job):
     from . import models, ops
     h = job['hist'][job['base'] - 1 + job['_k']]
     oplist = [models.desc_to_op(d) for d in h]
+    done = []
     for o in oplist:
+        # the model's register numbers assume that every earlier step produced its result: when an earlier step failed on
+        # the implementation (already recorded as a failing clause of that event) the rest of the history cannot be run
+        if any(isinstance(o.get(k), int) and o[k] >= len(m.regs) for k in ('r', 'other', 'new', 'src')) or \
+           any(i >= len(m.regs) for i in o.get('items', [])):
+            break
         ops.run(m, o)
-    return oplist, {}
+        done.append(o)
+    return done, {}
 
 
 GENERATORS = {'model_replay': gen_model_replay, 'history': gen_history, 'render_family': history.gen_render_family, 'roundtrip_family': history.gen_roundtrip_family, 'parse_input': history.gen_parse_input,
